@@ -30,23 +30,23 @@ package fs
 //@   ensures[C13] fopen == old(fopen)
 
 //@ func ISO3k3y.ReadAt results(n, err)
-//@   tags C04,C11
+//@   tags C04,C11,C02
 //@   requires iso != nil && iso.privateFile != nil
 //@   modifies elems(b), iofaults
 //@   ensures iofaults >= old(iofaults)
 //@   ensures 0 <= n && n <= len(b)
-//@   ensures[C11] forall k :: 0 <= k && k < n ==> b[k] == (masked3k3y(off + k) ? 0 : fcontent[iso.privateFile][off + k]) @view
+//@   ensures[C11,C02] forall k :: 0 <= k && k < n ==> b[k] == (masked3k3y(off + k) ? 0 : fcontent[iso.privateFile][off + k]) @view
 //@   ensures n > 0 ==> off >= 0 && off + n <= fsize[iso.privateFile]
 //@   ensures n < len(b) ==> err != nil
 
 //@ func ISO3k3y.Read results(n, err)
-//@   tags C04,C11
+//@   tags C04,C11,C02
 //@   requires wf3k3y(iso)
 //@   modifies elems(b), iofaults, fpos[iso.privateFile], iso.offset
 //@   ensures iofaults >= old(iofaults)
 //@   ensures wf3k3y(iso)
 //@   ensures 0 <= n && n <= len(b) && fpos[iso.privateFile] == old(fpos[iso.privateFile]) + n
-//@   ensures[C11] forall k :: 0 <= k && k < n ==> b[k] == (masked3k3y(old(iso.offset) + k) ? 0 : fcontent[iso.privateFile][old(iso.offset) + k]) @view
+//@   ensures[C11,C02] forall k :: 0 <= k && k < n ==> b[k] == (masked3k3y(old(iso.offset) + k) ? 0 : fcontent[iso.privateFile][old(iso.offset) + k]) @view
 //@   ensures n == 0 && len(b) > 0 ==> err != nil
 
 //@ func ISO3k3y.Seek results(pos, err)
@@ -465,11 +465,11 @@ package fs
 //@   ensures len(r) <= (joliet ? 2 * len(name) : len(name)) && r == identOf(name, joliet)
 
 //@ func VirtualISO.calculateSizes
-//@   tags C04,C08
+//@   tags C04,C08,C09
 //@   requires viso != nil && 0 <= filesLBA && 0 <= viso.filesSizeSectors && filesLBA + viso.filesSizeSectors <= 0x7fffffff - 64 @volume-fits-31-bit-sector-numbers
 //@   modifies viso.volumeSizeSectors, viso.totalSize, viso.padAreaStart, viso.padAreaSize
-//@   ensures[C08] viso.totalSize == 2048 * viso.volumeSizeSectors && viso.volumeSizeSectors % 32 == 0 @whole-sectors-and-announced-size-agree
-//@   ensures[C08] viso.padAreaStart == 2048 * (filesLBA + viso.filesSizeSectors) && viso.padAreaSize >= 65536 && viso.padAreaSize < 131072 && viso.totalSize == viso.padAreaStart + viso.padAreaSize @padding-after-the-last-file
+//@   ensures[C08,C09] viso.totalSize == 2048 * viso.volumeSizeSectors && viso.volumeSizeSectors % 32 == 0 @whole-sectors-and-announced-size-agree
+//@   ensures[C08,C09] viso.padAreaStart == 2048 * (filesLBA + viso.filesSizeSectors) && viso.padAreaSize >= 65536 && viso.padAreaSize < 131072 && viso.totalSize == viso.padAreaStart + viso.padAreaSize @padding-after-the-last-file
 
 // pathTable.size: the sum of the entry sizes. ptSum(ids, lo, hi) is that sum over the identifiers stored at the
 // absolute indices lo..hi-1 of the table's array; the part of memory it depends on is an explicit argument, so a
@@ -886,7 +886,7 @@ package fs
 
 // The buffer must not be the image's own metadata buffer (cannot happen from outside the package).
 //@ func VirtualISO.read results(n, err)
-//@   tags C04,C09,C13
+//@   tags C04,C09,C13,C02
 //@   safetytags C04,C09
 //@   any t int
 //@   requires wfISO(viso) && imgDef(viso) && off >= 0 && off < 1<<41 && buf.$arr != viso.fsBuf.$arr
@@ -899,7 +899,7 @@ package fs
 //@   ensures[C09] !viso.isClosed && (off >= viso.totalSize || len(buf) == 0) ==> n == 0 && err == io.EOF @eof
 //@   ensures[C09] !viso.isClosed && off < viso.totalSize && len(buf) > 0 && err == nil ==> n > 0 @progress
 //@   ensures[C09] !viso.isClosed && off < viso.totalSize && len(buf) > 0 && iofaults == old(iofaults) && filesIntact(viso) ==> err == nil @no-spurious-error
-//@   ensures[C09,C07] 0 <= t && t < n ==> raw(buf, base(buf) + t) == img(viso, off + t) @content
+//@   ensures[C09,C07,C02] 0 <= t && t < n ==> raw(buf, base(buf) + t) == img(viso, off + t) @content
 //@   ensures forall x {raw(buf, x)} :: x < base(buf) || x >= base(buf) + len(buf) ==> raw(buf, x) == old(raw(buf, x)) @frame-buf
 //@   ensures wfISO(viso) && iofaults >= old(iofaults)
 //@   ensures[C13] (forall g {fopen[g]} :: fopen[g] && !old(fopen[g]) && g != nil ==> hslotarr[g] == viso.files.$arr && base(viso.files) <= hslotidx[g] && hslotidx[g] < end(viso.files) && at(viso.files, hslotidx[g]).file == g) @member-files-opened-by-a-read-are-kept-in-the-file-list
@@ -936,7 +936,7 @@ package fs
 //@   ensures[C09] !viso.isClosed && (whence == 0 || whence == 1 || whence == 2) && (target < 0 || target > viso.totalSize) ==> err != nil && viso.offset == old(viso.offset) @range
 
 //@ func VirtualISO.Read results(n, err)
-//@   tags C04,C09,C13
+//@   tags C04,C09,C13,C02
 //@   safetytags C04,C09
 //@   any t int
 //@   requires wfISO(viso) && imgDef(viso) && viso.offset <= viso.totalSize && p.$arr != viso.fsBuf.$arr
@@ -946,12 +946,12 @@ package fs
 //@   ensures[C09] !viso.isClosed && (old(viso.offset) >= viso.totalSize || len(p) == 0) ==> n == 0 && err == io.EOF @eof
 //@   ensures[C09] !viso.isClosed && old(viso.offset) < viso.totalSize && len(p) > 0 && err == nil ==> n > 0 @progress
 //@   ensures[C09] !viso.isClosed && old(viso.offset) < viso.totalSize && len(p) > 0 && iofaults == old(iofaults) && filesIntact(viso) ==> err == nil @no-spurious-error
-//@   ensures[C09,C07] 0 <= t && t < n ==> raw(p, base(p) + t) == img(viso, old(viso.offset) + t) @content
+//@   ensures[C09,C07,C02] 0 <= t && t < n ==> raw(p, base(p) + t) == img(viso, old(viso.offset) + t) @content
 //@   ensures wfISO(viso) && iofaults >= old(iofaults)
 //@   ensures[C13] (forall g {fopen[g]} :: fopen[g] && !old(fopen[g]) && g != nil ==> hslotarr[g] == viso.files.$arr && base(viso.files) <= hslotidx[g] && hslotidx[g] < end(viso.files) && at(viso.files, hslotidx[g]).file == g) @member-files-opened-by-a-read-are-kept-in-the-file-list
 
 //@ func VirtualISO.ReadAt results(n, err)
-//@   tags C04,C09,C13
+//@   tags C04,C09,C13,C02
 //@   safetytags C04,C09
 //@   any t int
 //@   requires wfISO(viso) && imgDef(viso) && off >= 0 && off < 1<<41 && p.$arr != viso.fsBuf.$arr
@@ -960,7 +960,7 @@ package fs
 //@   ensures[C09] viso.isClosed ==> n == 0 && err == afero.ErrFileClosed @closed
 //@   ensures[C09] !viso.isClosed && (off >= viso.totalSize || len(p) == 0) ==> n == 0 && err == io.EOF @eof
 //@   ensures[C09] !viso.isClosed && off < viso.totalSize && len(p) > 0 && err == nil ==> n > 0 @progress
-//@   ensures[C09,C07] 0 <= t && t < n ==> raw(p, base(p) + t) == img(viso, off + t) @content
+//@   ensures[C09,C07,C02] 0 <= t && t < n ==> raw(p, base(p) + t) == img(viso, off + t) @content
 //@   ensures n > 0 ==> off + n <= viso.totalSize
 //@   ensures wfISO(viso) && iofaults >= old(iofaults)
 //@   ensures[C13] (forall g {fopen[g]} :: fopen[g] && !old(fopen[g]) && g != nil ==> hslotarr[g] == viso.files.$arr && base(viso.files) <= hslotidx[g] && hslotidx[g] < end(viso.files) && at(viso.files, hslotidx[g]).file == g) @member-files-opened-by-a-read-are-kept-in-the-file-list
@@ -1057,7 +1057,7 @@ package fs
 //@ pred encSynced(e *EncryptedISO) := wfEnc(e) && e.offset == fpos[e.privateFile] && e.offset >= 0 && e.iv.$arr != e.encryptedRegions.$arr
 
 //@ func EncryptedISO.ReadAt results(n, err)
-//@   tags C04,C10
+//@   tags C04,C10,C02
 //@   requires wfEnc(e) && b.$arr != e.iv.$arr && e.iv.$arr != e.encryptedRegions.$arr
 //@   modifies elems(b), elems(e.iv), iofaults
 //@   ensures iofaults >= old(iofaults) && wfEnc(e)
@@ -1066,7 +1066,7 @@ package fs
 //@   ensures n < len(b) ==> err != nil
 
 //@ func EncryptedISO.Read results(n, err)
-//@   tags C04,C10
+//@   tags C04,C10,C02
 //@   requires encSynced(e) && b.$arr != e.iv.$arr
 //@   modifies elems(b), elems(e.iv), iofaults, fpos[e.privateFile], e.offset
 //@   ensures iofaults >= old(iofaults) && encSynced(e)
@@ -1132,20 +1132,28 @@ package fs
 //@   ensures forall g {fpos[g]} :: old(allocated(g)) ==> fpos[g] == old(fpos[g])
 
 
-// The image constructor chain (scanDirectory ... writeFSStructures) is not verified yet: this contract
-// is ASSUMED at call sites (listed as trusted in the evidence).
+// The image constructor. Its body is verified: the sizes part of the data-structure invariant (wfSizes: whole
+// sectors, descriptors in place, pad area closes the announced size) follows from the verified chain init ->
+// buildFS -> buildFSStructures / writeFSStructures -> calculateSizes. What is NOT derived and stays ASSUMED, clause
+// by clause: that the metadata written ends where the computed layout says the file area starts, and that
+// collectFiles yields the sorted, contiguous file list covering [len(fsBuf), padAreaStart) (the link C07 needs).
+//@ pred wfSizes(v *VirtualISO) := v != nil && v.fs != nil && len(v.fsBuf) % 2048 == 0 && len(v.fsBuf) >= 40960 && v.padAreaSize >= 65536 && v.totalSize == v.padAreaStart + v.padAreaSize && v.totalSize == 2048 * v.volumeSizeSectors && 0 <= v.offset
 //@ func NewVirtualISO results(v, err)
-//@   trusted
+//@   tags C04,C08,C09,C13,C01
+//@   alloc (1<<62) * 4
 //@   requires fs != nil
 //@   requires[C01] confined(root) @image-root-confined
 //@   modifies fopen, fpos, iofaults
+//@   ownmemory allmem(dirItem).dirEntry, allmem(dirItem).dirEntryJoliet, allmem(directoryEntry), allmem(directoryFile).rLBA, allmem(pathTableEntry).DirLocation, recOwner
 //@   ensures iofaults >= old(iofaults) && fsw == old(fsw)
-//@   ensures err == nil ==> v != nil && fresh(v) && wfISO(v) && imgDef(v) && !v.isClosed && v.offset == 0
-//@   ensures err == nil ==> fresh(v.files.$arr) && fresh(v.fsBuf.$arr)
+//@   ensures err == nil ==> v != nil && fresh(v) && !v.isClosed && v.offset == 0
+//@   ensures[C09,C08] err == nil ==> wfSizes(v) && built(v) @sizes-established-by-the-constructor
+//@   ensures[ASSUMED,C09] err == nil ==> wfISO(v) && imgDef(v) @file-list-layout-and-image-definition
+//@   ensures[ASSUMED] err == nil ==> fresh(v.files.$arr) && fresh(v.fsBuf.$arr)
 //@   ensures err == nil ==> v.fs == fs && v.ps3Mode == ps3Mode && (root != "" ==> v.root == root) @built-from-these-arguments
 //@   ensures err != nil ==> v == nil
-//@   ensures forall g {fopen[g]} :: fopen[g] ==> old(fopen[g]) @temporaries-closed
-//@   ensures forall g {fpos[g]} :: old(allocated(g)) ==> fpos[g] == old(fpos[g])
+//@   ensures[C13] forall g {fopen[g]} :: fopen[g] ==> old(fopen[g]) @temporaries-closed
+//@   ensures[ASSUMED] forall g {fpos[g]} :: old(allocated(g)) ==> fpos[g] == old(fpos[g])
 
 //@ func FS.Open results(f, err)
 //@   tags C11,C01,C13,C05,C04
